@@ -692,6 +692,17 @@ func TestMuSig2Sign(t *testing.T) {
 		if back, err := schnorr.ParseSignature(raw); err != nil || !back.IsEqual(final) {
 			t.Fatalf("combined signature %x does not round-trip: %v", raw, err)
 		}
+		// the partial signatures belong to the caller: a coordinator that aggregates again (a retry, a second
+		// combiner) or checks them afterwards works on what the signers sent
+		for i, ps := range partials {
+			sb := ps.S.Bytes()
+			if !bytes.Equal(sb[:], psigBytes[i]) {
+				t.Fatalf("CombineSigs changed the caller's partial signature %d: s = %x, was %x (%s)", i, sb, psigBytes[i], describe(s, p))
+			}
+		}
+		if again := musig2.CombineSigs(partials[0].R, partials, p.combineOpts(msg, s.btcdKeys(), s.sort)...).Serialize(); !bytes.Equal(again, raw) {
+			t.Fatalf("a second CombineSigs over the same partial signatures gives %x, the first gave %x (%s)", again, raw, describe(s, p))
+		}
 	})
 }
 
@@ -786,6 +797,10 @@ func TestMuSig2Session(t *testing.T) {
 			}
 			if err != nil || !secp.Equal(pointOf(ck), p.ctx.Q) {
 				t.Fatalf("Context.CombinedKey of signer %d (%s) = %v, %v; BIP327 reference %x", i, describe(s, p), ck, err, secp.SerializeCompressed(p.ctx.Q))
+			}
+			// the list a context hands out is the caller's to reorder (e.g. to sort it for display)
+			if keys := ctxs[i].SigningKeys(); len(keys) > 1 {
+				keys[0], keys[len(keys)-1] = keys[len(keys)-1], keys[0]
 			}
 			if p.mode >= 2 {
 				ik, err := ctxs[i].TaprootInternalKey()
